@@ -10,16 +10,21 @@ LEAN_TARGETS = ["Asynkit.Props.C13", "Asynkit.Lemmas.GenEqLock"]
 PROPS_FILES = ["Asynkit/Props/C13.lean", "Asynkit/Lemmas/GenEqLock.lean"]
 DRIVERS = ["Lock"]
 TRUSTED = [
-    "Lean 4.33 kernel; axioms ⊆ {propext, Classical.choice, Quot.sound} (audited per theorem each run)",
-    "hand-written model Asynkit/Model/Lock.lean of PriorityLock.acquire/release/_take_lock/_wake_up_first, "
-    "_waiting_on and propagate_priority, tied to src/asynkit/experimental/priority.py by trace acceptance "
-    "(every real trace of this run is replayed through lean/Drivers/Lock.lean: each event enabled, each "
-    "observation equal)",
-    "asyncio kernel MODELLED NOT VERIFIED: Task.__step/__wakeup, Task.cancel (cancels the awaited future if "
-    "pending else _must_cancel), Future callbacks via call_soon, asyncio.Event, task_throw/task_interrupt "
-    "on Python tasks as 'replace the task's wake-up by a step with an exception'; the ready queue is an "
-    "unordered set in the model (any runnable task may run next)",
-    "the waiter queue pops in (key, arrival) order (that is property C17)",
+    'Lean 4.33 kernel; axioms ⊆ {propext, Classical.choice, Quot.sound} (audited per theorem each run)',
+    'translated, not trusted: PriorityTask/PriorityLock effective_priority and propagate_priority (mutually '
+    'recursive, with a recursion bound), _take_lock, _wake_up_first, release and the three segments of acquire '
+    'are re-translated from priority.py on every run (translator/lock2lean.py -> Gen/Lock.lean) and proved equal '
+    'to effT/effL, propT/propL and the acquire/resume/release events of Asynkit/Model/{PrioGraph,Lock}.lean '
+    '(Lemmas/GenEqLock.lean, 53 theorems)',
+    'hand-written and tied only by trace acceptance through lean/Drivers/Lock.lean (every real trace replayed: '
+    'each event enabled, each observation equal): the kernel half of Model/Lock.lean (task stepping, cancel / '
+    'throw delivery, Event) and the representation choices of Model/LockPrims.lean (locks, tasks, futures as '
+    'indices; weakrefs never die while queued; _waiters None = empty; arrival-order iteration)',
+    'asyncio kernel MODELLED NOT VERIFIED: Task.__step/__wakeup, Task.cancel (cancels the awaited future if '
+    'pending else _must_cancel), Future callbacks via call_soon, asyncio.Event, task_throw/task_interrupt on '
+    "Python tasks as 'replace the task's wake-up by a step with an exception'; the ready queue is an unordered "
+    'set in the model (any runnable task may run next)',
+    'the waiter queue pops in (key, arrival) order (that is property C17)',
 ]
 ASSUMPTIONS = [
     "workers release what they acquire (`async with`); a task does not re-acquire a lock it holds",
@@ -43,6 +48,7 @@ KINDS = {
     "loop-error": "no exception escapes to the event loop",
     "holding-mismatch": "_holding_locks / _waiting_on equal the locks the task is inside / waits for",
     "bad-release": "release() by a task that does not hold the lock is refused and changes nothing",
+    "dead-entry": "every entry of a lock's wait queue belongs to a task that is suspended in that acquire()",
 }
 THEOREM = {
     "mutual-exclusion": "Asynkit.C13.mutual_exclusion",
@@ -52,10 +58,11 @@ THEOREM = {
     "unclean-quiescence": "Asynkit.C13.quiescent_clean",
     "holding-mismatch": "Asynkit.C13.holding_waiting_consistent",
     "bad-release": "Asynkit.C13.refused_release_changes_nothing",
+    "dead-entry": "Asynkit.C13.holding_waiting_consistent",
 }
 NONTRIVIAL = {"fault-while-waiting", "fault-woken-not-run", "fault-while-holding", "throw-refused",
               "handover-by-giveup", "handover-contended", "release-by-non-holder-while-held",
-              "ready-entry-made-positional-woken-lock-waiter"}
+              "ready-entry-made-positional-woken-lock-waiter", "acquire-raises-on-lock-order-cycle"}
 
 
 def exhaustive(maxn):
@@ -88,8 +95,11 @@ def run(ctx):
     n = 30000 if ctx.thorough() else 3000
     def one():
         g = rng.random()
-        return S.gen_case(rng, "C13") if g < 0.57 else (S.gen_inflight_case(rng) if g < 0.95
-                                                         else S.gen_positional_case(rng))
+        if g < 0.55:
+            return S.gen_case(rng, "C13")
+        if g < 0.90:
+            return S.gen_inflight_case(rng)
+        return S.gen_positional_case(rng) if g < 0.95 else S.gen_cycle_case(rng)
     cases = [one() for _ in range(n)]
     runs = S.explore(ctx, cases, KINDS, THEOREM, nontrivial=NONTRIVIAL)
     for c in cases[:2]:
